@@ -221,10 +221,11 @@ pub fn history_at(ctor: Sx, ops: Vec<Sx>, marks: &[usize]) -> Sx {
     l(v)
 }
 
-/// does this run want the 65 536-entry histories?  (always in the thorough tier; in the quick tier for the checksum and
-/// length properties, whose oracles are linear in the image)
+/// does this run want the sparse 65 538-entry histories?  (the checksum and length properties, whose oracles are linear in the
+/// image; the thorough tier has its own, densely observed 65 540-entry histories where `long_runs_affordable`)
 pub fn wants_long_runs(tier: &str, emit: &crate::Emit) -> bool {
-    tier == "thorough" || emit.prop() == 1 || emit.prop() == 2
+    let _ = tier;
+    emit.prop() == 1 || emit.prop() == 2
 }
 
 /// the 65 540-entry histories of the thorough tier are for the properties whose oracles are linear in the history: the walk /
